@@ -334,6 +334,10 @@ def run_case(case):
                 elif which == 7:
                     bad("nibbles.new", 0, [nt], lambda: Nibbles(nt), "TypeError")
                     bad("nibbles.new", 0, [nv], lambda: Nibbles(nv), "ValueError")
+                    # the other way a Nibbles value comes into being: concatenation onto one the library handed out
+                    bad("nibbles.new", 0, [[1, 2] + list(nv)], lambda: Nibbles((1, 2)) + tuple(nv), "ValueError")
+                    handed = fog.nearest_unknown(()) if not fog.is_complete else Nibbles(())
+                    bad("nibbles.new", 0, [list(handed) + list(nv)], lambda: handed + tuple(nv), "ValueError", state)
                 else:
                     good("nibbles.new", 0, [[0, 15, 7]], lambda: Nibbles((0, 15, 7)))
                     good("fog.nearest_unknown", 0, [[1]], lambda: fog.nearest_unknown((1,)) if not fog.is_complete else None)
